@@ -55,7 +55,18 @@ func vfRandSubset[T ~int32](r *verifkit.Rand, n int) []T {
 	if r.Chance(1, 3) {
 		return nil
 	}
-	return vfSubsetBits[T](r.Intn(1<<n), n)
+	out := vfSubsetBits[T](r.Intn(1<<n), n)
+	// the lists are sets written down by a user: any order, possibly with a repeated element
+	if r.Bool() {
+		for i := len(out) - 1; i > 0; i-- {
+			j := r.Intn(i + 1)
+			out[i], out[j] = out[j], out[i]
+		}
+	}
+	if len(out) > 0 && r.Chance(1, 10) {
+		out = append(out, out[r.Intn(len(out))])
+	}
+	return out
 }
 
 func vfRandConfig(r *verifkit.Rand) *conformancev1.Config {
